@@ -4,12 +4,13 @@
 # usage: tools/baseline.sh [repo-dir]
 set -u
 REPO="${1:-/repo}"
+MODS="${2:-. ./internal/testify}"
 export GOFLAGS=-mod=mod GOPROXY=off GOSUMDB=off GOTOOLCHAIN=local
 OUT=$(mktemp)
-for m in . ./internal/testify; do
+for m in $MODS; do
   (cd "$REPO/$m" && go test -mod=mod -json -vet=off -count=1 -timeout 25m ./...) >> "$OUT" 2>&1
 done
-python3 - "$OUT" <<'PY'
+python3 - "$OUT" "$MODS" <<'PY'
 import json, sys
 passed, failed = set(), set()
 for line in open(sys.argv[1], errors="replace"):
@@ -19,6 +20,8 @@ for line in open(sys.argv[1], errors="replace"):
         (passed if e["Action"] == "pass" else failed).add(e["Package"] + "::" + e["Test"])
 try:
     base = set(json.load(open("/root/.vp/BASELINE.json"))["stable_pass"])
+    if sys.argv[2].strip() == ".":
+        base = set(b for b in base if b.startswith("github.com/jmespath/go-jmespath::") or b.startswith("github.com/jmespath/go-jmespath/cmd") or b.startswith("github.com/jmespath/go-jmespath/fuzz"))
 except Exception:
     base = None
 print("passed=%d failed=%d" % (len(passed), len(failed)))
